@@ -195,7 +195,11 @@ static void scen_history(int prov, std::vector<vo::BOp> ops) {
   T->step("builder_new", x->b != nullptr, "");
   if (!x->b) return;
   int i = 0;
+  int gens = 0;
   for (auto &o : ops) {
+    // the callback's invocation counter is harness state: tie it to the position in the history, so that a generate that fails
+    // before reaching the callback (injected fault) does not make every later token differ for a reason outside the library
+    if (o.k % vo::B_N == vo::B_GEN) x->cx.count = gens++;
     vo::BResult r; libv([&] { r = vo::apply(*x, o); });
     std::string label = std::string(vo::BN[o.k % vo::B_N]) + "#" + std::to_string(i++);
     if (r.is_gen) { std::string nt = r.null ? "NULL" : norm_token_any(r.token.c_str()); T->step(label, !r.null, nt); libv([&] { jwt_builder_error_clear(x->b); }); }
